@@ -86,12 +86,22 @@ def reply_then_fault(steps):
 
 
 def script_of(beh, name, maxcq=None, dgram=None, qid0=0, idpolicy="random", probe=False, probe_c=4, kinds=None,
-              pause=False, grace_ms=0):
+              pause=False, grace_ms=0, eof_with_data=False):
     steps = copy.deepcopy(beh["steps"])
     if kinds:
         for s in steps:
             if s["a"] == "ReadFail":
                 s["k"] = kinds[0]
+    if eof_with_data:
+        # concretization of "reply, then EOF/error": the Read that returns the reply's last byte also returns the
+        # error (n > 0, err in ONE call); the ReadFail step disappears, the reader's next Read fails by itself
+        for i, s in enumerate(steps):
+            if s["a"] == "ReadFail" and s.get("k") in ("eof", "err"):
+                j = max([k for k in range(i) if steps[k]["a"] == "ReadMsg"], default=None)
+                if j is not None and steps[j]["c"] >= 0 and not steps[j].get("k") and \
+                        not any(t["a"] in ("ReadMsg", "ReadFail") for t in steps[j + 1:i]):
+                    steps[j]["k"] = s["k"]
+                    s["a"] = "Nop"
     return {"name": name, "maxCq": maxcq if maxcq is not None else beh["maxCq"],
             "dgram": beh["dgram"] if dgram is None else dgram, "qid0": qid0, "idpolicy": idpolicy,
             "steps": steps, "probe": probe, "probe_c": probe_c, "pause": pause, "grace_ms": grace_ms}
@@ -191,6 +201,8 @@ def classify(trace, info):
         if ev.get("o") == "ok" and len(active) >= lim:
             return "reservation-admitted-above-limit"
         return "reserve-%s-unexplained" % ev.get("o")
+    if kind == "ConnWrite" and ev.get("bufok") is False:
+        return "caller-query-buffer-modified-by-exchange"
     if kind == "ConnWrite":
         busy = {}
         for e in prefix[:-1]:
@@ -227,7 +239,10 @@ def script_from_trace(rec):
     """A steering script that re-imposes the order actually observed in a recorded trace (used for replay files:
     the order of a failing run, incl. 'the reader came back before the Write returned', is forced again)."""
     sc = copy.deepcopy(rec["script"])
+    if sc.get("shared"):
+        return sc
     steps = []
+    auto_fail = False
     for e in rec["trace"]:
         ev = e["ev"]
         if ev == "Reserve":
@@ -243,9 +258,16 @@ def script_from_trace(rec):
         elif ev == "ArmIdle":
             steps += [{"a": "Dispatch"}, {"a": "ArmIdle"}]
         elif ev == "Deliver":
-            steps.append({"a": "ReadMsg", "c": e["c"], "g": e["g"], "n": e["n"]})
+            st = {"a": "ReadMsg", "c": e["c"], "g": e["g"], "n": e["n"]}
+            if e.get("with_err"):
+                st["k"] = e["with_err"]     # the error came with the last chunk; the next Read fails by itself
+                auto_fail = True
+            steps.append(st)
         elif ev == "ReadFail":
-            steps.append({"a": "ReadFail", "k": e.get("kind", "eof")})
+            if auto_fail:
+                auto_fail = False
+            else:
+                steps.append({"a": "ReadFail", "k": e.get("kind", "eof")})
         elif ev == "ConnClose":
             steps.append({"a": "ConnClose"})
         elif ev == "Close":
